@@ -11,6 +11,7 @@ import DcmVerif.Model.Group
 import DcmVerif.Model.Cli
 import DcmVerif.Model.Wrap
 import DcmVerif.Model.StackAdd
+import DcmVerif.Model.Header
 /-! `dcmdriver`: one JSON object per input line, one JSON answer per line.  Values of metadata
 are opaque strings (the harness sends the canonical JSON text of each value), so equality in the
 model is string equality. -/
@@ -427,6 +428,25 @@ def handle (j : Json) : Except String Json := do
       ("files", idsJson r.1.files), ("ntr", (r.1.trs.length : Json)), ("npe", (r.1.pes.length : Json)),
       ("ntuples", (r.1.tuples.length : Json)),
       ("ref", match r.1.ref with | some c => (c.f.id : Json) | none => Json.null)])
+  | "header_info" =>
+    let optInt (x : Json) : Except String (Option Int) := if x.isNull then pure none else (x.getInt?).map some
+    let trs ← (← (← j.getObjVal? "trs").getArr?).toList.mapM optInt
+    let pes ← (← (← j.getObjVal? "pes").getArr?).toList.mapM getOptNat
+    let perm ← getNatList (← j.getObjVal? "perm")
+    let acq ← (← (← j.getObjVal? "acq").getArr?).toList.mapM optInt
+    let fpv ← (← j.getObjVal? "fpv").getNat?
+    let nvols ← (← j.getObjVal? "nvols").getNat?
+    let n ← (← j.getObjVal? "n").getNat?
+    let trSet := trs.foldl (fun acc x => Stk.setInsert x acc) []
+    let peSet := pes.foldl (fun acc x => Stk.setInsert x acc) []
+    let optNatJ : Option Nat → Json
+      | some k => (k : Json) | none => Json.null
+    let di := Stk.dimInfoOf peSet perm
+    pure (Json.mkObj [("tr", match Stk.trOf trSet with | some x => (x : Json) | none => Json.null),
+      ("freq", optNatJ di.1), ("phase", optNatJ di.2.1), ("slice", optNatJ di.2.2),
+      ("times", match Stk.sliceTimesOf fpv nvols n acq with
+                | some ts => Json.arr (ts.map fun (t : Int) => (t : Json)).toArray
+                | none => Json.null)])
   | "regex_filter" =>
     let excl ← getStrList (← j.getObjVal? "excl")
     let incl ← getStrList (← j.getObjVal? "incl")
